@@ -261,7 +261,8 @@ pub fn run_worker<E: Engine>(e: &E, tier: Tier, base_seed: u64, worker: u64, nwo
         if out.nontrivial {
             rep.stats.nontrivial.insert(scenario_digest(&sc));
         }
-        if rep.stats.samples.len() < 2 && out.nontrivial && (idx / nworkers) % 7 == 3 {
+        // Evidence samples: the first scenario of each worker, and one later non-trivial one.
+        if rep.stats.samples.is_empty() || (rep.stats.samples.len() < 2 && out.nontrivial && (idx / nworkers) % 7 == 3) {
             rep.stats.samples.push(e.sample(&sc));
         }
         // Determinism self-audit on a 1-in-64 sample: re-execute, compare event-log digests.
